@@ -11,6 +11,7 @@ import copy
 import json
 import random
 import re
+import os
 import shutil
 import tempfile
 import xml.etree.ElementTree as ET
@@ -26,7 +27,12 @@ DOCS = [
     '\\selectlanguage{russian} w4z w5z\n',
     ''.join('Line %d of a long paragraph with w%dz and some more words, %s\n' % (i, i, 'to be continued' if i % 5 else 'end.\n')
             for i in range(1, 19)),
+    # a short chapter file that takes its glossary from a database much longer than itself
+    '\\LTinput{big.glsdefs}\n\\Gls{ylab} is w1z. \\GLS{ylab} w2z \\Glspl{ylab}, \\gls{ylab} w3z \\Glsdesc{ylab}\n',
 ]
+DOC_FILES = {6: {'big.glsdefs': '%% glossary database written by LaTeX\n' + '%% padding line of the database\n' * 60
+                 + '\\gls@defglossaryentry{ylab}%\n{%\nname={yglsname},%\ntext={yglstext yglstwo},%\n'
+                   'plural={yglsplural yglsmany},%\ndescription={yglsdescr},%\nfirst={yglsfirst}%\n}%\n'}}
 MODES = ['plain', 'json', 'xml', 'xml-b', 'html', 'html-link', 'plain-ml', 'json-single', 'plain-ml1', 'xml-ml1']
 TYPES = ['int', 'str', 'null', 'list', 'dict', 'bool', 'float', 'negint', 'bigstr']
 
@@ -216,7 +222,15 @@ class C15(core.Check):
         if di not in self.cache:
             src = DOCS[di]
             tex_ = src if src.endswith('\n') else src + '\n'
-            (plain, pmap), _ = tex.run(tex_, lang='en-GB', pack='*')
+            cwd = os.getcwd()
+            try:
+                for name, content in DOC_FILES.get(di, {}).items():
+                    with open(os.path.join(self.tmp, name), 'w') as f:
+                        f.write(content)
+                os.chdir(self.tmp)
+                (plain, pmap), _ = tex.run(tex_, lang='en-GB', pack='*')
+            finally:
+                os.chdir(cwd)
             if di == 4:
                 # multi-part document: the answer is built for the first submitted part
                 r = tex.run(tex_, ml=True, lang='en-GB', pack='*')[0]
@@ -282,7 +296,9 @@ class C15(core.Check):
         plan = {'mode': 'raw', 'data': base64.b64encode(data).decode(), 'exit': ex,
                 'all_calls': not mode.endswith('ml1')}
         ltc = '/nonexistent/dir/languagetool-command' if fid == 'command-missing' else None
-        r = shellrun.run_shell(args, {'f.tex': src}, plan, workdir=self.tmp, lt_command=ltc)
+        files = {'f.tex': src}
+        files.update(DOC_FILES.get(case['doc'], {}))
+        r = shellrun.run_shell(args, files, plan, workdir=self.tmp, lt_command=ltc)
         stratum = fid.split(':')[0]
         cnt = {'fault_' + stratum: 1, 'mode_' + mode: 1}
         if r.timed_out:
